@@ -110,6 +110,14 @@ fn float_class(t: &Tree) -> &'static str {
     }
 }
 
+/// parse "...: Float(a) vs Float(b)" produced by Tree::diff
+fn float_pair(d: &str) -> Option<(f64, f64)> {
+    let (l, r) = d.rsplit_once(" vs ")?;
+    let a = l.rsplit_once("Float(")?.1.strip_suffix(')')?.parse().ok()?;
+    let b = r.strip_prefix("Float(")?.strip_suffix(')')?.parse().ok()?;
+    Some((a, b))
+}
+
 /// serialize -> (prefix whitespace) -> deserialize -> compare; returns the decoded value
 fn round_trip<T: Serialize + serde::de::DeserializeOwned>(what: &str, v: &T, ws: u8) -> Result<(T, Tree), Outcome> {
     let before = Tree::of(v);
@@ -133,6 +141,11 @@ fn round_trip<T: Serialize + serde::de::DeserializeOwned>(what: &str, v: &T, ws:
     };
     let after = Tree::of(&back);
     if let Some(d) = before.diff(&after) {
+        if let Some((a, b)) = float_pair(&d) {
+            if a.is_finite() && b.is_finite() && ((a - b) / a).abs() < 1e-14 {
+                return Err(Outcome::fail("json:finite-float-changes-in-last-digits", format!("{} ({})", d, what)));
+            }
+        }
         let kind = if d.contains("Float(") { "float" } else if d.contains("timestamp") { "timestamp" } else { "structure" };
         return Err(Outcome::fail(format!("{}:not-equal-after-round-trip:{}", what, kind), d));
     }
